@@ -38,55 +38,7 @@ pub mod syntax {
         ensures r@ == excerpt@
     { unimplemented!() }
 
-    // ---- property text (C05): the value a literal's digits denote, ignoring '_' separators
-    pub open spec fn is_digit_or_sep(c: char, radix: int) -> bool { c == '_' || spec_to_digit(c, radix as u32) is Some }
-    pub open spec fn lit_value(s: Seq<char>, start: int, k: int, radix: int) -> int decreases k - start {
-        if k <= start { 0 }
-        else if s[k - 1] == '_' { lit_value(s, start, k - 1, radix) }
-        else { lit_value(s, start, k - 1, radix) * radix + (match spec_to_digit(s[k - 1], radix as u32) { Some(d) => d as int, None => 0 }) }
-    }
-    pub open spec fn lit_digits(s: Seq<char>, start: int, k: int) -> int decreases k - start {
-        if k <= start { 0 } else if s[k - 1] == '_' { lit_digits(s, start, k - 1) } else { lit_digits(s, start, k - 1) + 1 }
-    }
-    pub open spec fn all_digits(s: Seq<char>, start: int, k: int, radix: int) -> bool {
-        forall|j: int| start <= j < k ==> is_digit_or_sep(#[trigger] s[j], radix)
-    }
-    pub proof fn lemma_lit_bounds(s: Seq<char>, start: int, k: int, radix: int)
-        requires start <= k, radix >= 2
-        ensures 0 <= lit_value(s, start, k, radix), 0 <= lit_digits(s, start, k) <= k - start
-        decreases k - start
-    {
-        broadcast use axiom_to_digit_range;
-        if k > start {
-            lemma_lit_bounds(s, start, k - 1, radix);
-            assert(lit_value(s, start, k - 1, radix) * radix >= 0) by (nonlinear_arith) requires lit_value(s, start, k - 1, radix) >= 0, radix >= 2;
-        }
-    }
-    pub proof fn lemma_lit_monotone(s: Seq<char>, start: int, k: int, n: int, radix: int)
-        requires start <= k <= n, radix >= 2
-        ensures lit_value(s, start, k, radix) <= lit_value(s, start, n, radix)
-        decreases n - k
-    {
-        broadcast use axiom_to_digit_range;
-        if k < n {
-            lemma_lit_monotone(s, start, k, n - 1, radix);
-            lemma_lit_bounds(s, start, n - 1, radix);
-            let v = lit_value(s, start, n - 1, radix);
-            assert(v * radix >= v) by (nonlinear_arith) requires v >= 0, radix >= 2;
-        }
-    }
-    /// property text: for power-of-two bases the size is digits x bits-per-digit, none for decimal
-    pub open spec fn lit_size(radix: int, digits: int) -> Option<usize> {
-        if radix == 2 { Some(digits as usize) } else if radix == 8 { Some((3 * digits) as usize) } else if radix == 16 { Some((4 * digits) as usize) } else { None }
-    }
-    /// radix prefix rule of the property text
-    pub open spec fn radix_of(s: Seq<char>) -> (int, int) {
-        if s[0] == '0' && 1 < s.len() {
-            if s[1] == 'b' { (2, 2) } else if s[1] == 'o' { (8, 2) } else if s[1] == 'x' { (16, 2) } else { (10, 0) }
-        } else {
-            if s[0] == '%' { (2, 1) } else if s[0] == '$' { (16, 1) } else { (10, 0) }
-        }
-    }
+    //@@INCLUDE _shared/literal_spec.rs
     //@@ITEMS syntax
     }
 }
